@@ -2538,7 +2538,7 @@ func init() {
 	register(&Rule{Name: "CMP.SELF", Props: []string{"C05", "C09", "C10", "C15", "C11"}, Floor: 1,
 		Doc: "no comparison (==, !=, <, >, Equal, Less, cmp.Equal) has the same expression on both sides",
 		Run: ruleCmpSelf})
-	register(&Rule{Name: "APPEND.USE", Props: []string{"C04", "C08", "C11"}, Floor: 15,
+	register(&Rule{Name: "APPEND.USE", Props: []string{"C04", "C08", "C11", "C03"}, Floor: 15,
 		Doc: "the result of append is used, and where it is stored into the field it was read from it is stored on the same object",
 		Run: ruleAppendUse})
 }
